@@ -176,16 +176,30 @@ def check(report: Report, repo: Repo) -> None:
     exp = expected(g_ref, ["neg", "size"], bypass=False)
     report.add("R2-result", cons, got(g) == exp, "nodes whose target is selected are removed and their edges cut (None), everything else in order", got(g), exp)
 
-    # ------------------------------------------------ predicates on metrics (one-sided bwd => different)
-    it = Interp(repo)
-    ms = it.get_global(TS, "_metrics_same_scale")
-    a, b = metrics(S["s1"], S["g1"]), metrics(S["s1"], None)
+    # ------------------------------------------------ predicates on metrics (one-sided bwd => different),
+    # decided through the public helper on two-node graphs: x -> n -> output
+    cons = f"{TS}::prune_same_scale_tensors::same-scale-predicate"
+    pairs = [
+        ("backward recorded on one side only", metrics(S["s1"], S["g1"]), metrics(S["s1"], None), False),
+        ("both recorded, backward differs", metrics(S["s1"], S["g1"]), metrics(S["s1"], S["g2"]), False),
+        ("both recorded and equal", metrics(S["s1"], S["g1"]), metrics(S["s1"], S["g1"]), True),
+        ("no backward recorded, forward equal", metrics(S["s1"]), metrics(S["s1"]), True),
+        ("forward differs", metrics(S["s1"]), metrics(S["s2"]), False),
+    ]
+    got_p, want_p = [], []
     try:
-        r1 = it.call_function(ms, [a, b], {})
-        r2 = it.call_function(ms, [metrics(S["s1"], S["g1"]), metrics(S["s1"], S["g2"])], {})
-        r3 = it.call_function(ms, [metrics(S["s1"], S["g1"]), metrics(S["s1"], S["g1"])], {})
-        r4 = it.call_function(ms, [metrics(S["s1"]), metrics(S["s1"])], {})
-        report.add("R4-predicates", f"{TS}::_metrics_same_scale", [r1, r2, r3, r4] == [False, False, True, True], "one-sided backward metrics => different; both recorded => forward and backward must match; none => forward only", [r1, r2, r3, r4], [False, False, True, True])
+        for lab, mx, mn, removed_ in pairs:
+            itp = Interp(repo)
+            gp = AbstractGraph(itp)
+            xn = gp.node("x", "placeholder", "x", (), {}, {"clean_name": "x", "outputs_float_tensor": True, "requires_grad": False, "metrics": mx})
+            nn_ = gp.node("n", "call_function", ExtV("torch.neg"), (xn,), {}, {"clean_name": "n", "outputs_float_tensor": True, "requires_grad": False, "metrics": mn})
+            gp.node("output", "output", "output", ((nn_,),), {}, {"clean_name": "output", "outputs_float_tensor": False, "requires_grad": False})
+            resp = itp.call_function(itp.get_global(TS, "prune_same_scale_tensors"), [gp.obj], {})
+            rgp = resp.attrs.get("_abstract_graph") if isinstance(resp, Obj) else None
+            names = [n_[0] for n_ in got(rgp)] if rgp is not None else None
+            got_p.append(None if names is None else ("n" not in names))
+            want_p.append(removed_)
+        report.add("R4-predicates", cons, got_p == want_p, "a node is bypassed iff forward mean |x| matches and the backward metrics are either absent on both sides or recorded on both and matching (" + "; ".join(p_[0] for p_ in pairs) + ")", got_p, want_p)
     except Unsupported as ex:
-        report.add("R4-predicates", f"{TS}::_metrics_same_scale", None, f"outside fragment: {ex}")
+        report.add("R4-predicates", cons, None, f"outside fragment: {ex}")
     report.floor("helpers executed", 4, 4)
